@@ -16,11 +16,12 @@ pub struct Knobs {
     pub loops: bool,
     pub div: bool,
     pub data: bool,
+    pub macros: bool,
 }
 
 impl Knobs {
     pub fn control() -> Knobs {
-        Knobs { procs: 3, blocks: 10, prints: true, int3: false, services: false, trap: false, loops: true, div: false, data: true }
+        Knobs { procs: 3, blocks: 10, prints: true, int3: false, services: false, trap: false, loops: true, div: false, data: true, macros: true }
     }
 }
 
@@ -28,6 +29,25 @@ pub struct Gen<'a> {
     pub rng: &'a mut Rng,
     pub labels: usize,
     pub data_labels: Vec<(String, u8)>, // name, element width
+    /// macro library in scope: 0 = none, otherwise the templates of `macro_defs`
+    pub macros: bool,
+}
+
+/// the macro library used by generated programs (definitions as written in the source)
+pub fn macro_defs() -> Vec<String> {
+    vec![
+        "macro Mtwice(r) -> inc r inc r <-".to_string(),
+        "MACRO Mset(r, n) -> mov r, n test r, r <-".to_string(),
+        "macro Mshow(r) -> Mset(r, 7) print reg <-".to_string(),
+        "macro Mnest(q) -> Mtwice(q) stc Mtwice(q) <-".to_string(),
+        "macro Mapply(k, q) -> k (q) clc <-".to_string(),
+        "macro Mbrk(_) -> nop int 3 <-".to_string(),
+        "macro Mdeep(r) -> Mnest(r) Mshow(r) <-".to_string(),
+    ]
+}
+
+fn inc16(r: &'static str) -> Ins {
+    Ins::UnArith { op: "inc", w: 16, dst: Opnd::Reg16(r) }
 }
 
 const SAFE16: [&str; 5] = ["ax", "bx", "dx", "si", "di"];
@@ -35,7 +55,7 @@ const SAFE8: [&str; 6] = ["al", "ah", "bl", "bh", "dl", "dh"];
 
 impl<'a> Gen<'a> {
     pub fn new(rng: &'a mut Rng) -> Gen<'a> {
-        Gen { rng, labels: 0, data_labels: Vec::new() }
+        Gen { rng, labels: 0, data_labels: Vec::new(), macros: false }
     }
     pub fn fresh(&mut self, p: &str) -> String {
         self.labels += 1;
@@ -88,6 +108,46 @@ impl<'a> Gen<'a> {
             12 => Ins::UnArith { op: *self.rng.pick(&["mul", "imul"]), w, dst: self.reg(w) },
             13 => Ins::Not { w, dst: self.reg(w) },
             _ => Ins::UnArith { op: *self.rng.pick(&["div", "idiv"]), w, dst: self.reg(w) },
+        }
+    }
+    /// a use of one of the library macros with the instructions it stands for
+    pub fn macro_use(&mut self, allow_print: bool, allow_int3: bool) -> Item {
+        let r: &'static str = *self.rng.pick(&SAFE16);
+        let twice = |r: &'static str| vec![inc16(r), inc16(r)];
+        let set = |r: &'static str, n: i32| vec![Ins::Mov { w: 16, dst: Opnd::Reg16(r), src: Opnd::Imm(n) }, Ins::Logic { op: "test", w: 16, dst: Opnd::Reg16(r), src: Opnd::Reg16(r) }];
+        let nest = |r: &'static str| {
+            let mut v = twice(r);
+            v.push(Ins::Ctl { op: "stc" });
+            v.extend(twice(r));
+            v
+        };
+        let show = |r: &'static str| {
+            let mut v = set(r, 7);
+            v.push(Ins::Print { what: PrintWhat::Reg });
+            v
+        };
+        loop {
+            match self.rng.below(7) {
+                0 => return Item::Use { text: format!("Mtwice({})", r), expands: twice(r) },
+                1 => {
+                    let n = self.rng.below(60000) as i32;
+                    return Item::Use { text: format!("Mset ( {} , {} )", r, n), expands: set(r, n) };
+                }
+                2 if allow_print => return Item::Use { text: format!("Mshow({})", r), expands: show(r) },
+                3 => return Item::Use { text: format!("Mnest({})", r), expands: nest(r) },
+                4 => {
+                    let mut v = twice(r);
+                    v.push(Ins::Ctl { op: "clc" });
+                    return Item::Use { text: format!("Mapply(Mtwice, {})", r), expands: v };
+                }
+                5 if allow_int3 => return Item::Use { text: "Mbrk(_)".to_string(), expands: vec![Ins::Ctl { op: "nop" }, Ins::Int { n: 3 }] },
+                6 if allow_print => {
+                    let mut v = nest(r);
+                    v.extend(show(r));
+                    return Item::Use { text: format!("Mdeep({})", r), expands: v };
+                }
+                _ => {}
+            }
         }
     }
     pub fn print_stmt(&mut self) -> Ins {
@@ -170,6 +230,10 @@ impl<'a> Gen<'a> {
                 }
                 8 if k.prints && !in_proc => out.push(Item::Ins(self.print_stmt())),
                 9 if k.int3 => out.push(Item::Ins(Ins::Int { n: 3 })),
+                11 if self.macros => {
+                    let u = self.macro_use(k.prints && !in_proc, k.int3);
+                    out.push(u);
+                }
                 10 => {
                     // a label nobody jumps to, or a backward-looking label (already passed) is harmless
                     let l = self.fresh("u");
@@ -188,6 +252,12 @@ impl<'a> Gen<'a> {
         self.data_labels.clear();
         let data = if k.data { self.data_section() } else { Vec::new() };
         let mut items: Vec<Item> = Vec::new();
+        self.macros = k.macros && self.rng.chance(1, 2);
+        if self.macros {
+            for d in macro_defs() {
+                items.push(Item::Raw(d));
+            }
+        }
         let mut procs: Vec<String> = Vec::new();
         let nprocs = self.rng.below(k.procs as u64 + 1) as usize;
         let procs_first = self.rng.chance(2, 3);
